@@ -1,4 +1,6 @@
-// contract of IPFix::parse -- ASSUMED (closure captures &mut parser: outside Verus; see bounded stand-ins)
+// contract of IPFix::parse as used by the wrapper unit: clauses 1-2 say that result and final parser are a FUNCTION of
+// (parser, bytes) (ipfix_nom: determinism of safe Rust without interior randomness -- not an obligation); clause 3 (the remainder
+// is a suffix of the input) is discharged by V.ipfix.message on the macro expansion of IPFix::parse_be / parse.
 pub fn parse<'a>(i: &'a [u8], parser: &mut IPFixParser) -> (r: IResult<&'a [u8], IPFix>)
     ensures
         nom_view(r) == ipfix_nom(*old(parser), i@).0,
